@@ -167,8 +167,9 @@ def safe_callable_names(root: ast.Module) -> Collection[str]:
             nonreturn_children = []
             for child in node.body:
                 if core.is_blocking(child):
-                    if any(core.walk(child, (ast.Raise, ast.Assert))):
-                        nonreturn_children.append(child)  # Calling it may raise
+                    if not isinstance(child, ast.Return):
+                        # Calling it may raise, or run whatever else the statement contains
+                        nonreturn_children.append(child)
 
                     break
 
